@@ -153,6 +153,8 @@ def check(cx):
     r6 = cx.rule('R18.6', 'one winner per nickname', floor=4, kind='required-guard')
     rule_insert_checked(cx, r6)
     rule_auth_implies_registered(cx, r6)
+    # ... and a connection that lost the claim never acts on the winner's entry (teardown / select arms keyed by the nick it merely named)
+    depends(cx, r6, 'C02', ('R2.6',), 'the loser of a nickname claim has no effect on the winner')
 
     # ---------------------------------------------------------------- R18.5
     r5 = cx.rule('R18.5', 'awaits under a guard', floor=50, kind='effect')
